@@ -48,28 +48,7 @@ func hasTag(tags []string, p string) bool {
 }
 
 func contractMentions(c *FuncContract, prop string) bool {
-	if hasTag(c.Props, prop) {
-		return true
-	}
-	var all []*Clause
-	all = append(all, c.Requires...)
-	all = append(all, c.Ensures...)
-	all = append(all, c.EnsuresA...)
-	if c.NoPanic != nil {
-		all = append(all, c.NoPanic)
-	}
-	for _, ls := range c.Loops {
-		all = append(all, ls...)
-	}
-	for _, oc := range c.OnCalls {
-		all = append(all, oc.Clauses...)
-	}
-	for _, cl := range all {
-		if hasTag(cl.Tags, prop) {
-			return true
-		}
-	}
-	return false
+	return hasTag(c.Props, prop)
 }
 
 func main() {
